@@ -618,10 +618,18 @@ func (c *SpecCtx) evalCall(x *ECall) *V {
 		}
 		d := *c
 		d.env = map[string]*V{}
+		// predicates are evaluated in the package that defines them
+		if p.Pkg != "" && (c.pkg == nil || c.pkg.Name() != p.Pkg) {
+			for _, pp := range u.eng.AllPkgs {
+				if pp.Types != nil && pp.Types.Name() == p.Pkg && strings.HasPrefix(pp.PkgPath, RepoModule) {
+					d.pkg = pp.Types
+				}
+			}
+		}
 		// predicates see only their parameters (and globals)
 		for i, b := range p.Params {
 			v := c.eval(x.Args[i])
-			if t := u.eng.resolveType(b.Type, c.pkg); t != nil {
+			if t := u.eng.resolveType(b.Type, d.pkg); t != nil {
 				v = c.coerceTo(v, t)
 			}
 			d.env[b.Name] = v
